@@ -339,6 +339,8 @@ def obligations(repo=None, timeout_ms=10000):
                 ln.lineno, by=['syntactic'])
             if okb:
                 forms[role].add(why[0])
+    # ---- which entries are written (coefficient shapes)
+    entries_obligations(w, L, add, prove)
     # ---- injectivity of the label function on names (string theory, the
     # solver is only asked for a counterexample)
     for role in ('row', 'column'):
@@ -421,3 +423,290 @@ def obligations(repo=None, timeout_ms=10000):
                 'read back from exactly these columns as a %s' % (
                     a, b, sec, use), 0, by=['syntactic'])
     return obs, info
+
+
+# ---------------------------------------------------------------- entries
+# Which entries tofile writes in COLUMNS (and RHS) for each shape of a
+# coefficient.  A function of length m has, for a variable v of length n, a
+# coefficient of size (m, n), (1, n) (the same row for every component) or
+# (1, 1) (a scalar: a*v with m = n, or broadcast if n = 1); modeling.rst /
+# _lin._coeff.  Contract: for every row R < m and component i < n the line
+# (column (v,i), row (c,R), value) is written iff the coefficient of x_{v,i}
+# in row R is nonzero, and the value written is that coefficient.
+class Tr:
+    """translation of the guard / index / value expressions of tofile into
+    z3 over the symbolic sizes"""
+    def __init__(self, env):
+        self.env = env
+        self.m, self.n = z3.Int('len(c)'), z3.Int('len(v)')
+        self.r, self.cd = z3.Int('cf.rows'), z3.Int('cf.cols')
+        self.cs = z3.Int('const.rows')
+        self.cfv = z3.Function('cf', z3.IntSort(), z3.IntSort(),
+                               z3.RealSort())
+        self.constv = z3.Function('const', z3.IntSort(), z3.RealSort())
+        self.inC = z3.Bool('v in coefficients of c')
+        self.free = {}
+
+    def role(self, name):
+        v = self.env.get(name)
+        if isinstance(v, mpsvc.Elem):
+            return {'constraints': 'c', 'variables': 'v'}.get(v.cont)
+        if isinstance(v, mpsvc.Opaque):
+            s = v.src.replace(' ', '')
+            if s.endswith('._linear._coeff[v]') and s.startswith('c.'):
+                return 'cf'
+            if s.endswith('._constant') and 'c._f' in s:
+                return 'const'
+        return None
+
+    def var(self, name):
+        return z3.Int('loop:' + name)
+
+    def t(self, n):
+        A = mpsvc.ast
+        if isinstance(n, A.Constant):
+            if isinstance(n.value, bool):
+                return z3.BoolVal(n.value)
+            if isinstance(n.value, int):
+                return z3.IntVal(n.value)
+            if isinstance(n.value, float):
+                return z3.RealVal(n.value)
+            raise mpsvc.Unsupported('constant %r' % (n.value,))
+        if isinstance(n, A.Name):
+            v = self.env.get(n.id)
+            if isinstance(v, IntTerm) and v.op == 'var':
+                return self.var(n.id)
+            raise mpsvc.Unsupported('name %s' % n.id)
+        if isinstance(n, A.Tuple):
+            return tuple(self.t(e) for e in n.elts)
+        if isinstance(n, A.Call) and isinstance(n.func, A.Name):
+            if n.func.id == 'len' and isinstance(n.args[0], A.Name):
+                ro = self.role(n.args[0].id)
+                if ro == 'c':
+                    return self.m
+                if ro == 'v':
+                    return self.n
+            if n.func.id == '_isscalar' and isinstance(n.args[0], A.Name) \
+                    and self.role(n.args[0].id) == 'cf':
+                return z3.And(self.r == 1, self.cd == 1)
+            raise mpsvc.Unsupported('call ' + A.unparse(n))
+        if isinstance(n, A.Attribute) and n.attr == 'size' and isinstance(
+                n.value, A.Name):
+            ro = self.role(n.value.id)
+            if ro == 'cf':
+                return (self.r, self.cd)
+            if ro == 'const':
+                return (self.cs, z3.IntVal(1))
+            raise mpsvc.Unsupported('size of ' + n.value.id)
+        if isinstance(n, A.Attribute) and n.attr == 'name':
+            return self.free.setdefault(A.unparse(n), z3.Bool(
+                'truth:' + A.unparse(n)))
+        if isinstance(n, A.Subscript):
+            base = n.value
+            if isinstance(base, A.Attribute) and base.attr == 'size':
+                tup = self.t(base)
+                ix = self.t(n.slice)
+                if z3.is_int_value(ix):
+                    return tup[ix.as_long()]
+            if isinstance(base, A.Name):
+                ro = self.role(base.id)
+                ix = self.t(n.slice)
+                if ro == 'cf' and isinstance(ix, tuple) and len(ix) == 2:
+                    return self.cfv(ix[0], ix[1])
+                if ro == 'const' and not isinstance(ix, tuple):
+                    return self.constv(ix)
+            raise mpsvc.Unsupported('subscript ' + A.unparse(n))
+        if isinstance(n, A.Compare) and len(n.ops) == 1:
+            op = n.ops[0]
+            if isinstance(op, A.In):
+                s_ = A.unparse(n).replace(' ', '')
+                if s_ == 'vinc._f._linear._coeff':
+                    return self.inC
+                return self.free.setdefault(s_, z3.Bool('truth:' + s_))
+            a, b = self.t(n.left), self.t(n.comparators[0])
+            if isinstance(a, tuple) or isinstance(b, tuple):
+                if not (isinstance(a, tuple) and isinstance(b, tuple) and
+                        len(a) == len(b)):
+                    raise mpsvc.Unsupported('tuple comparison')
+                e = z3.And([self.num(x) == self.num(y)
+                            for x, y in zip(a, b)])
+                if isinstance(op, A.Eq):
+                    return e
+                if isinstance(op, A.NotEq):
+                    return z3.Not(e)
+                raise mpsvc.Unsupported('tuple order')
+            a, b = self.num2(a, b)
+            return {A.Eq: a == b, A.NotEq: a != b, A.Lt: a < b,
+                    A.LtE: a <= b, A.Gt: a > b, A.GtE: a >= b}[type(op)]
+        if isinstance(n, A.UnaryOp) and isinstance(n.op, A.Not):
+            return z3.Not(self.t(n.operand))
+        if isinstance(n, A.BoolOp):
+            vs = [self.t(v) for v in n.values]
+            return z3.And(vs) if isinstance(n.op, A.And) else z3.Or(vs)
+        raise mpsvc.Unsupported('expression ' + A.unparse(n))
+
+    def num(self, x):
+        return x
+
+    def num2(self, a, b):
+        if z3.is_int(a) and z3.is_real(b):
+            a = z3.ToReal(a)
+        if z3.is_real(a) and z3.is_int(b):
+            b = z3.ToReal(b)
+        return a, b
+
+    def truth(self, n):
+        v = self.t(n)
+        if z3.is_bool(v):
+            return v
+        if z3.is_int(v) or z3.is_real(v):
+            return v != 0
+        raise mpsvc.Unsupported('truth of ' + mpsvc.ast.unparse(n))
+
+    def domain(self, target, it, env):
+        """constraint on the loop variable of `for target in it`"""
+        A = mpsvc.ast
+        if not isinstance(target, A.Name):
+            raise mpsvc.Unsupported('loop target')
+        x = self.var(target.id)
+        if isinstance(it, A.Call) and isinstance(it.func, A.Name) and \
+                it.func.id == 'range' and len(it.args) == 1:
+            return z3.And(x >= 0, x < self.t(it.args[0]))
+        if isinstance(it, A.Name):
+            v = env.get(it.id)
+            if isinstance(v, mpsvc.Opaque):
+                try:
+                    e = A.parse(v.src.strip(), mode='eval').body
+                except SyntaxError:
+                    e = None
+                if isinstance(e, A.ListComp) and len(e.generators) == 1 and \
+                        isinstance(e.elt, A.Name) and isinstance(
+                            e.generators[0].target, A.Name) and \
+                        e.elt.id == e.generators[0].target.id:
+                    g = e.generators[0]
+                    k = g.target.id
+                    sub = Tr(dict(self.env))
+                    sub.__dict__.update({k_: v_ for k_, v_ in
+                                         self.__dict__.items()
+                                         if k_ != 'env'})
+                    sub.env = dict(self.env)
+                    sub.env[k] = IntTerm('var', k)
+                    d = sub.domain(g.target, g.iter, env)
+                    conds = [sub.truth(c_) for c_ in g.ifs]
+                    f = z3.And([d] + conds)
+                    return z3.substitute(f, (sub.var(k), x))
+        raise mpsvc.Unsupported('loop domain ' + A.unparse(it))
+
+
+def entries_obligations(w, L, add, prove):
+    A = mpsvc.ast
+    for sec, anchor in (('COLUMNS', 'constraints'), ('RHS', 'constraints')):
+        shapes = []
+        seen = set()
+        for ln in w.lines:
+            if ln.section != sec:
+                continue
+            nums = [p for p in ln.pieces if isinstance(p, Num)]
+            segs, _ = mpsvc.segments(ln, L)
+            labs = [strip_just(t_, L, []) for k_, a_, b_, t_ in segs
+                    if k_ == 'label']
+            rowlab = labs[-1] if labs else None
+            if not nums or rowlab is None or isinstance(rowlab, Const):
+                continue
+            base, idx = label_form(rowlab)
+            if base is None:
+                continue
+            key = (ln.lineno,)
+            if key in seen:
+                continue
+            seen.add(key)
+            # the constructs that enclose the write, from the loop over the
+            # constraints inwards
+            ctx = list(ln.ctx)
+            start = None
+            for q, c_ in enumerate(ctx):
+                if c_[0] == 'for' and 'constraints' in A.unparse(c_[2]):
+                    start = q
+            if start is None:
+                continue
+            shapes.append((ln, nums[0], idx, ctx[start + 1:]))
+        if not shapes:
+            add('op.tofile:entries:%s:shapes' % sec, 'entries', 'undecided',
+                'the %s lines of the constraints were identified' % sec)
+            continue
+        R = z3.Int('R')
+        V = z3.Real('V')
+        written = []
+        try:
+            tr0 = None
+            for ln, num, idx, ctx in shapes:
+                tr = Tr(num.env or {})
+                tr0 = tr0 or tr
+                conj = []
+                qv = []
+                for c_ in ctx:
+                    if c_[0] == 'if':
+                        tt = Tr(c_[3])
+                        tt.__dict__.update({k_: v_ for k_, v_ in
+                                            tr.__dict__.items()
+                                            if k_ != 'env'})
+                        tt.env = c_[3]
+                        g = tt.truth(c_[1])
+                        conj.append(g if c_[2] else z3.Not(g))
+                    else:
+                        tt = Tr(c_[3])
+                        tt.__dict__.update({k_: v_ for k_, v_ in
+                                            tr.__dict__.items()
+                                            if k_ != 'env'})
+                        tt.env = c_[3]
+                        conj.append(tt.domain(c_[1], c_[2], c_[3]))
+                        qv.append(tt.var(c_[1].id))
+                if idx.op != 'var':
+                    raise mpsvc.Unsupported('row index of a label')
+                rv = tr.var(idx.a[0].split('@')[0])
+                val = tr.t(num.node)
+                f = z3.And(conj + [R == rv, V == val])
+                for x in qv:
+                    # the row index is the loop variable: eliminate it
+                    f = z3.substitute(f, (x, R)) if z3.eq(x, rv) else \
+                        z3.Exists([x], f)
+                written.append((ln.lineno, f))
+        except mpsvc.Unsupported as e:
+            add('op.tofile:entries:%s:supported' % sec, 'entries',
+                'undecided', 'the guards and indices of the %s lines are '
+                'inside the translated subset' % sec, detail=str(e))
+            continue
+        tr = tr0
+        i = tr.var('i')
+        m, n, r, cd, cs = tr.m, tr.n, tr.r, tr.cd, tr.cs
+        if sec == 'COLUMNS':
+            inv = [m >= 1, n >= 1, i >= 0, i < n, R >= 0, R < m, tr.inC,
+                   z3.Or(z3.And(r == m, cd == n), z3.And(r == 1, cd == n),
+                         z3.And(r == 1, cd == 1)),
+                   z3.Implies(z3.And(r == 1, cd == 1, n > 1), m == n)]
+            coef = z3.If(z3.And(r == m, cd == n), tr.cfv(R, i),
+                         z3.If(z3.And(r == 1, cd == n), tr.cfv(0, i),
+                               z3.If(R == i, tr.cfv(0, 0), z3.RealVal(0))))
+            need = coef != 0
+            what = 'the coefficient of component i of v in row R of c'
+        else:
+            inv = [m >= 1, R >= 0, R < m, z3.Or(cs == m, cs == 1)]
+            coef = z3.If(cs == m, tr.constv(R), tr.constv(0))
+            need = z3.BoolVal(True)
+            what = 'minus the constant of row R of c'
+        L2 = mpsvc.Lengths()
+        L2.facts = list(inv)
+        for lineno, f in written:
+            st, model = prove(L2, z3.Implies(f, z3.And(V == coef, need)))
+            add('op.tofile:entries:%s:sound@%d' % (sec, len([
+                1 for x in written if x[0] < lineno])), 'entries', st,
+                'a %s line written for (v,i) and row R of c carries %s, and '
+                'only when it is needed' % (sec, what), lineno, model)
+        anyw = z3.Or([z3.substitute(f, (V, coef)) for _, f in written])
+        st, model = prove(L2, z3.Implies(need, anyw))
+        add('op.tofile:entries:%s:complete' % sec, 'entries', st,
+            'for every shape of the coefficient ((m,n), (1,n) or scalar) '
+            'every row R of c in which (v,i) has a nonzero coefficient gets '
+            'a %s line with that value' % sec if sec == 'COLUMNS' else
+            'every row R of every constraint gets an RHS line with minus '
+            'its constant (a constant of length 1 is repeated)', 0, model)
